@@ -40,6 +40,11 @@ pub enum SeedSpec {
     /// muxer output with samples whose moov also announces fragments (mvex), followed by
     /// (moof + mdat) pairs that continue the tracks: what "ffmpeg -movflags frag_keyframe" writes
     Hybrid { seed: u64 },
+    /// a valid image in which one box is wrapped in 10..60 000 nested container headers
+    Nest { seed: u64 },
+    /// a valid image in which one sample table is replaced by a very long one (10^5 entries) in
+    /// ascending, descending, random, constant or zigzag order
+    BigTable { seed: u64 },
 }
 
 impl SeedSpec {
@@ -58,6 +63,8 @@ impl SeedSpec {
             SeedSpec::LengthChain { .. } => "length_chain",
             SeedSpec::DescriptorChain { .. } => "descriptor_chain",
             SeedSpec::Hybrid { .. } => "hybrid",
+            SeedSpec::Nest { .. } => "nest",
+            SeedSpec::BigTable { .. } => "big_table",
         }
     }
 }
@@ -438,7 +445,10 @@ pub fn meta_image(seed: u64) -> Vec<u8> {
                     continue;
                 }
                 let ci = conts[r.usize_below(conts.len())];
-                let at = nodes[ci].end();
+                // behind the last child or in front of the first one (a parser that expects a
+                // particular first child then takes its "something else comes first" path)
+                // (the library insists on hvcC as the first child of hev1: "hvcc not found")
+                let at = if r.chance(1, 2) || nodes[ci].is(b"hev1") { nodes[ci].end() } else { nodes[ci].kids.map(|k| k.0).unwrap_or(nodes[ci].end()) };
                 let f = bx(if r.chance(1, 2) { b"free" } else { b"skip" }, &vec![0u8; r.below(9) as usize]);
                 splice(&mut img, &nodes, Some(ci), at, 0, &f);
             }
@@ -473,8 +483,52 @@ pub fn meta_image(seed: u64) -> Vec<u8> {
 }
 
 /// Appends 1..4 (moof + mdat) pairs for tracks 1..=ntracks; decode_time carries each track's
-/// running base media decode time.
+/// running base media decode time. Variants: several trafs of one track in a moof, one or two
+/// truns per traf (with different flag sets), data addressed relative to the moof
+/// (default-base-is-moof) or through an explicit absolute base_data_offset (moof start or
+/// payload start).
 pub fn push_fragments(r: &mut Rng, out: &mut Vec<u8>, ntracks: u32, decode_time: &mut Vec<u64>) {
+    struct Trun {
+        flags: u32,
+        durs: Vec<u32>,
+        sizes: Vec<u32>,
+        cts: Vec<u32>,
+    }
+    struct Run {
+        track: u32,
+        tfhd_flags: u32,
+        truns: Vec<Trun>,
+        default_dur: u32,
+        tfdt_v1: bool,
+        has_tfdt: bool,
+        /// 0 = relative to the moof, 1 = explicit base at the moof start, 2 = at the payload start
+        base_kind: u8,
+    }
+    fn gen_trun(r: &mut Rng) -> Trun {
+        let n = r.below(5) as usize + if r.chance(1, 6) { 0 } else { 1 };
+        let mut flags = 0x000001; // data offset
+        if r.chance(9, 10) {
+            flags |= 0x200;
+        }
+        if r.chance(1, 2) {
+            flags |= 0x100;
+        }
+        if r.chance(1, 3) {
+            flags |= 0x800;
+        }
+        if r.chance(1, 4) {
+            flags |= 0x400;
+        }
+        if r.chance(1, 4) {
+            flags |= 0x004;
+        }
+        Trun {
+            flags,
+            durs: (0..n).map(|_| *r.pick(&[0u32, 1, 512, 1024, 3003])).collect(),
+            sizes: (0..n).map(|_| r.below(40) as u32).collect(),
+            cts: (0..n).map(|_| *r.pick(&[0u32, 512, 1024, 0xFFFF_FE00])).collect(),
+        }
+    }
     let nfrags = 1 + r.below(4) as u32;
     let mut seq = 1u32;
     let mut stamp = 1u32;
@@ -492,37 +546,8 @@ pub fn push_fragments(r: &mut Rng, out: &mut Vec<u8>, ntracks: u32, decode_time:
                 tracks.push(again);
             }
         }
-        struct Run {
-            track: u32,
-            tfhd_flags: u32,
-            trun_flags: u32,
-            durs: Vec<u32>,
-            sizes: Vec<u32>,
-            cts: Vec<u32>,
-            default_dur: u32,
-            tfdt_v1: bool,
-            has_tfdt: bool,
-        }
         let mut runs = Vec::new();
         for t in &tracks {
-            let n = r.below(5) as usize + if r.chance(1, 6) { 0 } else { 1 };
-            let mut trun_flags = 0x000001; // data offset
-            if r.chance(9, 10) {
-                trun_flags |= 0x200;
-            }
-            let per_sample_dur = r.chance(1, 2);
-            if per_sample_dur {
-                trun_flags |= 0x100;
-            }
-            if r.chance(1, 3) {
-                trun_flags |= 0x800;
-            }
-            if r.chance(1, 4) {
-                trun_flags |= 0x400;
-            }
-            if r.chance(1, 4) {
-                trun_flags |= 0x004;
-            }
             let mut tfhd_flags = 0x020000u32; // default-base-is-moof
             if r.chance(1, 2) {
                 tfhd_flags |= 0x000008;
@@ -536,24 +561,26 @@ pub fn push_fragments(r: &mut Rng, out: &mut Vec<u8>, ntracks: u32, decode_time:
             if r.chance(1, 5) {
                 tfhd_flags |= 0x000002;
             }
-            runs.push(Run {
-                track: *t,
-                tfhd_flags,
-                trun_flags,
-                durs: (0..n).map(|_| *r.pick(&[0u32, 1, 512, 1024, 3003])).collect(),
-                sizes: (0..n).map(|_| r.below(40) as u32).collect(),
-                cts: (0..n).map(|_| *r.pick(&[0u32, 512, 1024, 0xFFFF_FE00])).collect(),
-                default_dur: *r.pick(&[1u32, 512, 1001]),
-                tfdt_v1: r.chance(1, 2),
-                has_tfdt: r.chance(9, 10),
-            });
+            let base_kind = if r.chance(1, 5) { 1 + r.below(2) as u8 } else { 0 };
+            if base_kind != 0 {
+                tfhd_flags = (tfhd_flags & !0x020000) | 0x000001;
+            }
+            let mut truns = vec![gen_trun(r)];
+            if r.chance(1, 6) {
+                truns.push(gen_trun(r));
+            }
+            runs.push(Run { track: *t, tfhd_flags, truns, default_dur: *r.pick(&[1u32, 512, 1001]), tfdt_v1: r.chance(1, 2), has_tfdt: r.chance(9, 10), base_kind });
         }
+        let moof_start = out.len() as u64;
         // build with placeholder data offsets, then patch
-        let build = |runs: &Vec<Run>, offs: &Vec<i32>| -> Vec<u8> {
+        let build = |runs: &Vec<Run>, offs: &Vec<Vec<i32>>, payload_start: u64| -> Vec<u8> {
             let mut trafs = Vec::new();
             for (ri, run) in runs.iter().enumerate() {
                 let mut tf = Vec::new();
                 tf.extend_from_slice(&u32b(run.track));
+                if run.tfhd_flags & 0x1 != 0 {
+                    tf.extend_from_slice(&u64b(if run.base_kind == 1 { moof_start } else { payload_start }));
+                }
                 if run.tfhd_flags & 0x2 != 0 {
                     tf.extend_from_slice(&u32b(1));
                 }
@@ -576,55 +603,61 @@ pub fn push_fragments(r: &mut Rng, out: &mut Vec<u8>, ntracks: u32, decode_time:
                 } else {
                     Vec::new()
                 };
-                let mut tr = Vec::new();
-                tr.extend_from_slice(&u32b(run.sizes.len() as u32));
-                tr.extend_from_slice(&offs[ri].to_be_bytes());
-                if run.trun_flags & 0x4 != 0 {
-                    tr.extend_from_slice(&u32b(0x0200_0000));
+                let mut body = cat(&[&tfhd, &tfdt]);
+                for (ti, tn) in run.truns.iter().enumerate() {
+                    let mut tr = Vec::new();
+                    tr.extend_from_slice(&u32b(tn.sizes.len() as u32));
+                    tr.extend_from_slice(&offs[ri][ti].to_be_bytes());
+                    if tn.flags & 0x4 != 0 {
+                        tr.extend_from_slice(&u32b(0x0200_0000));
+                    }
+                    for k in 0..tn.sizes.len() {
+                        if tn.flags & 0x100 != 0 {
+                            tr.extend_from_slice(&u32b(tn.durs[k]));
+                        }
+                        if tn.flags & 0x200 != 0 {
+                            tr.extend_from_slice(&u32b(tn.sizes[k]));
+                        }
+                        if tn.flags & 0x400 != 0 {
+                            tr.extend_from_slice(&u32b(0x0001_0000));
+                        }
+                        if tn.flags & 0x800 != 0 {
+                            tr.extend_from_slice(&u32b(tn.cts[k]));
+                        }
+                    }
+                    body.extend(full(b"trun", 0, tn.flags, &tr));
                 }
-                for k in 0..run.sizes.len() {
-                    if run.trun_flags & 0x100 != 0 {
-                        tr.extend_from_slice(&u32b(run.durs[k]));
-                    }
-                    if run.trun_flags & 0x200 != 0 {
-                        tr.extend_from_slice(&u32b(run.sizes[k]));
-                    }
-                    if run.trun_flags & 0x400 != 0 {
-                        tr.extend_from_slice(&u32b(0x0001_0000));
-                    }
-                    if run.trun_flags & 0x800 != 0 {
-                        tr.extend_from_slice(&u32b(run.cts[k]));
-                    }
-                }
-                let trun = full(b"trun", 0, run.trun_flags, &tr);
-                trafs.extend(bx(b"traf", &cat(&[&tfhd, &tfdt, &trun])));
+                trafs.extend(bx(b"traf", &body));
             }
             bx(b"moof", &cat(&[&full(b"mfhd", 0, 0, &u32b(seq)), &trafs]))
         };
-        let zero: Vec<i32> = runs.iter().map(|_| 0).collect();
-        let moof_len = build(&runs, &zero).len();
-        let mut offs = Vec::new();
-        let mut cursor = moof_len as i32 + 8;
+        let zero: Vec<Vec<i32>> = runs.iter().map(|ru| ru.truns.iter().map(|_| 0).collect()).collect();
+        let moof_len = build(&runs, &zero, 0).len();
+        let payload_start = moof_start + moof_len as u64 + 8;
+        let mut offs: Vec<Vec<i32>> = Vec::new();
+        let mut cursor = moof_len as i32 + 8; // relative to the moof start
         let mut payload = Vec::new();
         for run in &runs {
-            offs.push(cursor);
-            for s in &run.sizes {
-                let b = stamp_bytes(stamp, *s as usize);
-                stamp += 1;
-                payload.extend_from_slice(&b);
-                cursor += *s as i32;
+            let mut ro = Vec::new();
+            for tn in &run.truns {
+                ro.push(if run.base_kind == 2 { cursor - (moof_len as i32 + 8) } else { cursor });
+                for sz in &tn.sizes {
+                    let b = stamp_bytes(stamp, *sz as usize);
+                    stamp += 1;
+                    payload.extend_from_slice(&b);
+                    cursor += *sz as i32;
+                }
             }
+            offs.push(ro);
         }
-        let moof = build(&runs, &offs);
+        let moof = build(&runs, &offs, payload_start);
         out.extend_from_slice(&moof);
         out.extend(bx(b"mdat", &payload));
         for run in &runs {
-            let d: u64 = if run.trun_flags & 0x100 != 0 {
-                run.durs.iter().map(|x| *x as u64).sum()
-            } else {
-                run.sizes.len() as u64 * run.default_dur as u64
-            };
-            decode_time[run.track as usize - 1] += d;
+            for tn in &run.truns {
+                let d: u64 = if tn.flags & 0x100 != 0 { tn.durs.iter().map(|x| *x as u64).sum() } else { tn.sizes.len() as u64 * run.default_dur as u64 };
+                decode_time[run.track as usize - 1] += d;
+            }
         }
         seq += 1;
     }
@@ -671,6 +704,116 @@ pub fn hybrid_image(seed: u64) -> Vec<u8> {
     }
     push_fragments(&mut r, &mut out, ntracks, &mut decode_time);
     out
+}
+
+/// Deep nesting: one box of a valid image (metadata variant, muxer output or fragment stream)
+/// is wrapped in K nested headers of a container type - its parent's type (wave in wave, udta in
+/// udta, ...), its own type or a random container. All enclosing sizes are adjusted, so the image
+/// is well-formed; a parser that recurses per level needs stack proportional to K.
+pub fn nest_image(seed: u64) -> Vec<u8> {
+    let mut r = Rng::new(seed ^ 0x4E57);
+    let mut img = match r.below(4) {
+        0 | 1 => meta_image(r.below(4096)),
+        2 => mux_bytes(&small_scenario(r.below(4096))),
+        _ => frag_image(r.below(4096)).0,
+    };
+    let nodes = walk(&img);
+    if nodes.is_empty() {
+        return img;
+    }
+    // prefer boxes below the top level (inside moov / moof), they are what parsers descend into
+    let deep: Vec<usize> = (0..nodes.len()).filter(|i| nodes[*i].depth >= 1 && !nodes[*i].is(b"mdat")).collect();
+    let ni = if deep.is_empty() { r.usize_below(nodes.len()) } else { deep[r.usize_below(deep.len())] };
+    let n = &nodes[ni];
+    const CONTAINERS: [[u8; 4]; 16] = [*b"wave", *b"udta", *b"meta", *b"moov", *b"trak", *b"mdia", *b"minf", *b"stbl", *b"dinf", *b"edts", *b"moof", *b"traf", *b"mvex", *b"ilst", *b"stsd", *b"mp4a"];
+    let wt: [u8; 4] = match r.below(5) {
+        0 | 1 => n.parent.map(|p| nodes[p].typ).unwrap_or(*b"moov"),
+        2 => n.typ,
+        _ => *r.pick(&CONTAINERS),
+    };
+    let k = *r.pick(&[10usize, 100, 1000, 5000, 20_000, 60_000]);
+    // meta is a full box: its wrapper carries version/flags
+    let hdr = if &wt == b"meta" { 12 } else { 8 };
+    let inner = img[n.start..n.end()].to_vec();
+    let mut w = Vec::with_capacity(k * hdr + inner.len());
+    for i in 0..k {
+        let size = ((k - i) * hdr + inner.len()) as u32;
+        w.extend_from_slice(&size.to_be_bytes());
+        w.extend_from_slice(&wt);
+        if hdr == 12 {
+            w.extend_from_slice(&[0, 0, 0, 0]);
+        }
+    }
+    w.extend_from_slice(&inner);
+    let (at, len, owner) = (n.start, n.size, n.parent);
+    splice(&mut img, &nodes, owner, at, len, &w);
+    img
+}
+
+/// One sample table of a valid muxer output replaced by a very long one whose entries are in
+/// ascending, descending, random, constant or zigzag order. The file stays well-formed; the
+/// track's samples need not make sense. Parsing and every accessor must stay (near-)linear.
+pub fn big_table_image(seed: u64) -> Vec<u8> {
+    let mut r = Rng::new(seed ^ 0xB167);
+    let mut img = mux_bytes(&small_scenario(r.below(4096)));
+    let nodes = walk(&img);
+    let kind = r.below(7);
+    let (typ, words): (&[u8; 4], usize) = match kind {
+        0 => (b"stss", 1),
+        1 => (b"stts", 2),
+        2 => (b"ctts", 2),
+        3 => (b"stsc", 3),
+        4 => (b"stco", 1),
+        5 => (b"co64", 2),
+        _ => (b"stsz", 1),
+    };
+    // replace an existing table of that type, or add one to the first stbl
+    let target = nodes.iter().position(|n| n.is(typ));
+    let stbl = nodes.iter().position(|n| n.is(b"stbl"));
+    let (Some(stbl), true) = (stbl, true) else { return img };
+    let n_entries = (200_000 / words + r.below(40_000) as usize).min(1_000_000 / (4 * words));
+    let order = r.below(5);
+    let mut body = Vec::with_capacity(8 + 4 * words * n_entries);
+    if typ == b"stsz" {
+        body.extend_from_slice(&0u32.to_be_bytes()); // per-sample sizes follow
+    }
+    body.extend_from_slice(&(n_entries as u32).to_be_bytes());
+    for i in 0..n_entries {
+        let v: u32 = match order {
+            0 => i as u32 + 1,
+            1 => (n_entries - i) as u32,
+            2 => 1 + r.below(n_entries as u64) as u32,
+            3 => 1,
+            _ => if i % 2 == 0 { i as u32 + 1 } else { (n_entries - i) as u32 },
+        };
+        match (typ, words) {
+            (b"co64", _) => body.extend_from_slice(&(v as u64).to_be_bytes()),
+            (_, 1) => body.extend_from_slice(&v.to_be_bytes()),
+            (_, 2) => {
+                // (count, value): counts stay small so that sums do not overflow
+                body.extend_from_slice(&1u32.to_be_bytes());
+                body.extend_from_slice(&v.to_be_bytes());
+            }
+            _ => {
+                // stsc: first_chunk, samples_per_chunk, description index
+                body.extend_from_slice(&v.to_be_bytes());
+                body.extend_from_slice(&(1 + (i % 3) as u32).to_be_bytes());
+                body.extend_from_slice(&1u32.to_be_bytes());
+            }
+        }
+    }
+    let table = full(typ, 0, 0, &body);
+    match target {
+        Some(t) => {
+            let (at, len, owner) = (nodes[t].start, nodes[t].size, nodes[t].parent);
+            splice(&mut img, &nodes, owner, at, len, &table);
+        }
+        None => {
+            let at = nodes[stbl].end();
+            splice(&mut img, &nodes, Some(stbl), at, 0, &table);
+        }
+    }
+    img
 }
 
 pub struct FragPlan {
@@ -776,6 +919,8 @@ pub fn build(spec: &SeedSpec) -> SeedImage {
         SeedSpec::LengthChain { seed } => SeedImage { bytes: length_chain_image(*seed), init_len: None },
         SeedSpec::DescriptorChain { seed } => SeedImage { bytes: descriptor_chain_image(*seed), init_len: None },
         SeedSpec::Hybrid { seed } => SeedImage { bytes: hybrid_image(*seed), init_len: None },
+        SeedSpec::Nest { seed } => SeedImage { bytes: nest_image(*seed), init_len: None },
+        SeedSpec::BigTable { seed } => SeedImage { bytes: big_table_image(*seed), init_len: None },
         SeedSpec::Scale { seed } => {
             let (b, l) = scale_image(*seed);
             SeedImage { bytes: b, init_len: l }
@@ -798,6 +943,12 @@ pub fn gen_spec(r: &mut Rng) -> SeedSpec {
     }
     if r.chance(1, 600) {
         return SeedSpec::DescriptorChain { seed: r.below(1 << 30) };
+    }
+    if r.chance(1, 150) {
+        return SeedSpec::Nest { seed: r.below(1 << 30) };
+    }
+    if r.chance(1, 300) {
+        return SeedSpec::BigTable { seed: r.below(1 << 30) };
     }
     match r.below(30) {
         28 | 29 => SeedSpec::Hybrid { seed: r.below(4096) },
@@ -1629,6 +1780,41 @@ mod chain_tests {
                     assert!(m.contains("avcC parameter set") || m.contains("hvcC"), "seed {seed}: unexpected error {e}")
                 }
             }
+        }
+    }
+}
+
+#[cfg(test)]
+mod shape_tests {
+    use super::*;
+    use std::io::Cursor;
+    /// Nest / BigTable images are well-formed for the independent walker (sizes tile) and a fair
+    /// share of them opens, so that the deep / long structures are really traversed.
+    #[test]
+    fn nest_and_big_table_images_are_well_formed() {
+        for (name, f) in [("nest", nest_image as fn(u64) -> Vec<u8>), ("big_table", big_table_image as fn(u64) -> Vec<u8>)] {
+            let mut opened = 0;
+            let n = 60;
+            let mut slowest = std::time::Duration::ZERO;
+            for seed in 0..n {
+                let img = f(seed);
+                // top-level boxes tile the image exactly
+                let mut pos = 0usize;
+                while pos + 8 <= img.len() {
+                    let sz = be32(&img, pos) as usize;
+                    let sz = if sz == 1 { be64(&img, pos + 8) as usize } else { sz };
+                    assert!(sz >= 8 && pos + sz <= img.len(), "{name} seed {seed}: bad top-level box at {pos}");
+                    pos += sz;
+                }
+                assert_eq!(pos, img.len(), "{name} seed {seed}");
+                let t0 = std::time::Instant::now();
+                if mp4::Mp4Reader::read_header(Cursor::new(img.clone()), img.len() as u64).is_ok() {
+                    opened += 1;
+                }
+                slowest = slowest.max(t0.elapsed());
+            }
+            eprintln!("{name}: {opened}/{n} open, slowest open {slowest:?}");
+            assert!(opened * 4 >= n, "only {opened}/{n} {name} images open");
         }
     }
 }
